@@ -1012,16 +1012,19 @@ fn do_check_parse(step: usize, kind: u8, ps: &PsDoc, render: u8, sidx: u8, srend
         4 => {
             // context, with (schema, action) or without
             let with_schema = render & 1 == 0;
-            let mut doc = json!({"context": req.ctx});
+            // bit 1 of `render`: schema-implicit form (entity references without the `__entity` escape),
+            // which only the schema-directed parser reads as entities
+            let ctx = if render & 2 != 0 { store_doc(&[req.ctx.clone()], true).get(0).cloned().unwrap_or(Value::Null) } else { req.ctx.clone() };
+            let mut doc = json!({"context": ctx});
             let want = if with_schema {
                 doc["schema"] = schema_doc(sidx, srender);
                 doc["action"] = uid_json(&req.a, req.uid_form);
                 match (api_schema(sidx, srender), EntityUid::from_json(uid_json(&req.a, req.uid_form))) {
-                    (Ok(s), Ok(a)) => Context::from_json_value(req.ctx.clone(), Some((&s, &a))).is_ok(),
+                    (Ok(s), Ok(a)) => Context::from_json_value(ctx.clone(), Some((&s, &a))).is_ok(),
                     _ => false,
                 }
             } else {
-                Context::from_json_value(req.ctx.clone(), None).is_ok()
+                Context::from_json_value(ctx.clone(), None).is_ok()
             };
             ("check_parse_context", ok_of(if via_str { strv(ffi::check_parse_context_json_str(&doc.to_string())) } else { ffi::check_parse_context_json(doc) }), want)
         }
